@@ -16,6 +16,8 @@ pub fn eval(sc: &Scenario) -> CaseResult {
 
 pub fn params(tier: Tier) -> GenParams {
     let mut p = GenParams::default();
+    // tick rates other than the default 60 fps (the builder's with_fps follows the game's tick rate)
+    p.fps = vec![60, 60, 60, 30, 120, 144];
     p.ticks = tier.pick((300, 1500), (3000, 6000));
     p
 }
@@ -26,6 +28,22 @@ pub fn run(ctx: &Ctx) -> PropReport {
     let cases = ctx.tier.pick(6000, 24000);
     let rule = "random 2-4 peer topologies x 1-2 local players x 0-2 spectators, windows 1..=12, delays 0..=6, sparse on/off, both predictors, both input types, jittered schedules with uneven speeds/pauses/outages, per-link loss/dup/latency; oracle: inputs of every confirmed frame == reference model of the delayed true input stream, final states == serial replay on every peer; non-trivial = >=1 rollback AND >=150 confirmed frames (input ring wrapped) AND (loss profile => >=1 input packet actually dropped) AND no disconnect";
     rep.parts.push(run_random(ctx, "p2p", rule, || scenario(&p), cases, eval));
+    let mut pw = p.clone();
+    pw.windows = vec![(1, 0)];
+    pw.ticks = ctx.tier.pick((300, 900), (1500, 4000));
+    rep.part(|| run_random(ctx, "lockstep",
+        "the same space with prediction window 0 (lockstep): every simulated frame is final, so every AdvanceFrame must carry the true inputs and the states must equal the serial replay; all or a seeded subset of the peers drive the session through advance_frame_with_wait / _with_wait_timeout under an auto-ticking clock with link latency 0-45 ms (inputs arrive while the helper spins); non-trivial = >=150 confirmed frames AND >=1 stalled call AND no disconnect",
+        || super::c02::lockstep_wait(&pw), ctx.tier.pick(2000, 8000),
+        |sc| {
+            let (out, mut r) = eval_core(sc, PROPS, true);
+            let compared: i32 = out.peers.iter().map(|p| p.last_conf).max().unwrap_or(-1);
+            let ls: u64 = out.peers.iter().map(|p| p.lockstep_stalls).sum();
+            r.nontrivial = compared >= 150 && ls > 0 && !any_disconnect(&out);
+            if out.peers.iter().any(|p| p.midwait_deliveries > 0) {
+                r.classes.push("midwait_delivery");
+            }
+            r
+        }));
     rep.floors.push(("p2p".into(), 0.3));
     rep.assumptions = vec![
         "virtual clock and deterministic rand shim (verif-hooks) replace instant/rand/SystemTime inside ggrs".into(),
